@@ -76,6 +76,12 @@ def strategy(tier):
         pi.map(lambda n: [("pass", 0), ("exit", n), ("is_running", 0), ("is_running", 1), ("is_running", 2),
                           ("recycle", n, False), ("pass", 0), ("pass", 0)]),
     ]
+    motifs.append(
+        # reuse noticed through an object of a pass that is still under way
+        # (first pass: nothing committed to the cache yet)
+        st.tuples(st.integers(1, 3), pi).map(lambda t: [("cache_clear",), ("iter_new", 0), ("iter_next", 11, t[0]),
+                                                        ("recycle_yielded", t[1]), ("is_running_yielded",),
+                                                        ("iter_finish", 11), ("pass", 0), ("pass", 0), ("pass", 0)]))
     one = st.one_of(*ops).map(lambda o: [o])
     piece = st.one_of(one, one, one, one, one, one, one, one, one, st.one_of(*motifs))
     return st.fixed_dictionaries(dict(
@@ -274,8 +280,31 @@ def run_case(case):
                         labels.add("recycle")
                         last_recycled[0] = pid
                 continue
+            if kind == "recycle_yielded":
+                # a PID that an iterator (possibly still open, possibly the
+                # very first pass) has already yielded is recycled ...
+                ys = [o for o in keep if o.pid in history.PID_POOL and o.pid in k.procs]
+                if ys:
+                    obj = ys[op[1] % len(ys)]
+                    if w.recycle(obj.pid, zombie=False) is not None:
+                        labels.add("recycle")
+                        last_recycled[0] = obj
+                continue
+            if kind == "is_running_yielded":
+                # ... and the yielded object is asked is_running() while that
+                # iterator has not finished (no cache entry committed yet)
+                obj = last_recycled[0]
+                if obj is not None and not isinstance(obj, int):
+                    if not obj.is_running() and obj.pid in k.procs:
+                        forbid(obj.pid, obj)
+                        expect_same.pop(obj.pid, None)
+                        pending_reused.add(obj.pid)
+                        labels.add("reuse-detected-by-is_running-on-a-yielded-object")
+                continue
             if kind == "is_running_last":
                 pid = last_recycled[0]
+                if not isinstance(pid, int):
+                    continue
                 obj = psutil._pmap.get(pid)
                 if obj is not None:
                     finalise_open("is_running")
